@@ -434,8 +434,10 @@ func TestVerif_C07(t *testing.T) {
 		{"set", vxKindSet, 0, false, [2]int{2, 3}, [2]int{3, 5}},
 		{"set-opn2", vxKindSet, 2, false, [2]int{2, 3}, [2]int{3, 5}},
 		{"set-queue", vxKindSet, 2, true, [2]int{2, 3}, [2]int{3, 5}},
-		{"mutex", vxKindMutex, 0, false, [2]int{2, 3}, [2]int{3, 5}},
-		{"bool", vxKindBool, 0, false, [2]int{2, 3}, [2]int{3, 5}},
+		// mutex / bool: small alphabets, so length 3 exhaustively and length 4 state-merged already in the
+		// quick tier (write, read = row cache filled, move the column by another path, read again)
+		{"mutex", vxKindMutex, 0, false, [2]int{3, 3}, [2]int{4, 5}},
+		{"bool", vxKindBool, 0, false, [2]int{3, 3}, [2]int{4, 5}},
 		{"bsi", vxKindBSI, 0, false, [2]int{2, 3}, [2]int{3, 5}},
 		{"bsi-opn2", vxKindBSI, 2, false, [2]int{2, 3}, [2]int{3, 4}},
 	}
